@@ -9,6 +9,7 @@ import (
 	"errors"
 	"fmt"
 	"math/rand/v2"
+	"net"
 	"os"
 	"sort"
 	"sync"
@@ -32,6 +33,9 @@ const (
 )
 
 var inconcN atomic.Int64
+
+// poisoned: see KFCleanup handling in the race variant
+var poisoned atomic.Bool
 
 func inconclusive(rt *rapid.T, rec *ev.Rec, why string) {
 	n := inconcN.Add(1)
@@ -107,22 +111,29 @@ func (s spec) String() string {
 }
 
 type pair struct {
-	n    [2]*p2psim.Node
-	dir  string
-	born time.Time
+	n     [2]*p2psim.Node
+	dir   string
+	born  time.Time
+	pipes [2]net.Conn
 }
 
-// KFHeartbeat: Stream.queueSend is called by the heartbeat paths (sendHeartbeat, handleHeartbeatPacket)
-// without Stream.mu, while Stream.cleanup sets closed and closes sendQueue under it: a data race on
-// every teardown of a connection that has sent a heartbeat, and a "send on closed channel" panic in
-// the heartbeat goroutine (which has no recover) when the heartbeat queue is full at teardown.
-const KFHeartbeat = "KF-C18-heartbeat-send-vs-cleanup"
+// KFCleanup: Stream.cleanup() (called from MultiConn.Stop on whatever goroutine tears the connection
+// down) is not synchronised with the connection's own services:
+//
+//	(a) the heartbeat paths (sendHeartbeat, handleHeartbeatPacket) call Stream.queueSend without
+//	    Stream.mu while cleanup sets closed and closes sendQueue under it: a data race on every
+//	    teardown of a connection that has sent a heartbeat, and a "send on closed channel" panic in
+//	    the heartbeat goroutine (which has no recover) when the heartbeat queue is full at teardown;
+//	(b) the receive service's handlePacket writes Stream.msgAssembler without the mutex while
+//	    cleanup sets it to nil: a data race whenever Stop() comes from another goroutine
+//	    (P2P.Stop, duplicate-peer replacement, heartbeat timeout, failed write).
+const KFCleanup = "KF-C18-stream-cleanup-unsynchronised"
 
-// tooOldToStop: while KFHeartbeat is open, a connection that may already have sent a heartbeat is
-// not torn down inside a race-detector run (it is left running until the process exits), so that
-// the known race is excluded by construction and any other race still fails the check.
+// tooOldToStop: while KFCleanup is open, a connection that may already have sent a heartbeat is not
+// torn down inside a race-detector run, so that the known race (a) is excluded by construction and
+// any other race still fails the check.
 func tooOldToStop(born time.Time) bool {
-	return ev.Open(KFHeartbeat) && time.Since(born) > p2psim.HeartbeatEvery*6/10
+	return ev.Open(KFCleanup) && time.Since(born) > p2psim.HeartbeatEvery*6/10
 }
 
 func newPair(rt *rapid.T, rec *ev.Rec) *pair {
@@ -134,7 +145,7 @@ func newPair(rt *rapid.T, rec *ev.Rec) *pair {
 	p.n[0], p.n[1] = p2psim.NewNode(dir+"/a", 1, 1), p2psim.NewNode(dir+"/b", 2, 1)
 	for attempt := 0; ; attempt++ {
 		p.born = time.Now()
-		err = p2psim.Join(p.n[0], p.n[1])
+		p.pipes[0], p.pipes[1], err = p2psim.JoinPipes(p.n[0], p.n[1])
 		if err == nil {
 			return p
 		}
@@ -273,6 +284,9 @@ func (m *matcher) outstanding() string {
 
 // runConcurrent is the body shared by the plain and the race-detector variant.
 func runConcurrent(rt *rapid.T, rec *ev.Rec, small bool) {
+	if poisoned.Load() {
+		return
+	}
 	c := rec.Case()
 	sc := drawScenario(rt, small)
 	p := newPair(rt, rec)
@@ -387,8 +401,8 @@ func runConcurrent(rt *rapid.T, rec *ev.Rec, small bool) {
 		// honest connection stays; optionally after the connection has lived through a heartbeat tick
 		if rapid.IntRange(0, 2).Draw(rt, "malformed-teardown") > 0 {
 			linger := rapid.IntRange(0, 4).Draw(rt, "linger") == 0
-			if linger && ev.Open(KFHeartbeat) {
-				rec.Exclude(KFHeartbeat)
+			if linger && ev.Open(KFCleanup) {
+				rec.Exclude(KFCleanup)
 				linger = false
 			}
 			born := time.Now()
@@ -400,7 +414,9 @@ func runConcurrent(rt *rapid.T, rec *ev.Rec, small bool) {
 				time.Sleep(p2psim.HeartbeatEvery + 150*time.Millisecond)
 			}
 			if tooOldToStop(born) {
-				rec.Exclude(KFHeartbeat + "/slow-case-left-running")
+				rec.Exclude(KFCleanup + "/slow-case-left-running")
+				rec.Note("stopped_early", "a raw peer connection outlived the first heartbeat tick while "+KFCleanup+" is open; remaining cases not run")
+				poisoned.Store(true)
 			} else {
 				_ = rp.SendPacket(1000, true, []byte("unknown stream"))
 				if !p2psim.WaitFor(teardownBudget, func() bool { return !p.n[0].Has(rp.Pub) && rp.Closed() }) {
@@ -412,9 +428,26 @@ func runConcurrent(rt *rapid.T, rec *ev.Rec, small bool) {
 				rt.Fatalf("the honest connection did not survive the teardown of the raw peer's connection")
 			}
 		}
-		if tooOldToStop(p.born) {
-			rec.Exclude(KFHeartbeat + "/slow-case-left-running")
+		if ev.Open(KFCleanup) {
+			// known race (b): never Stop() a connection from outside its receive goroutine in the
+			// detector run. A young connection is ended by cutting the pipe (both receive services
+			// then tear their side down themselves); one that may have sent a heartbeat (known race
+			// (a)) is left running, and no further case is started (p2p.New writes package globals
+			// that a live connection reads - one P2P per process in production).
 			stopPair = false
+			if tooOldToStop(p.born) {
+				rec.Exclude(KFCleanup + "/slow-case-left-running")
+				rec.Note("stopped_early", "a case outlived the first heartbeat tick while "+KFCleanup+" is open; remaining cases not run")
+				poisoned.Store(true)
+			} else {
+				rec.Exclude(KFCleanup + "/outside-stop-replaced-by-pipe-cut")
+				_ = p.pipes[0].Close()
+				if !p2psim.WaitFor(teardownBudget, func() bool { return !p.n[0].Has(p.n[1].Pub) && !p.n[1].Has(p.n[0].Pub) }) {
+					poisoned.Store(true)
+					inconclusive(rt, rec, "no teardown after the pipe was cut")
+				}
+				_ = os.RemoveAll(p.dir)
+			}
 		}
 		c.Done(len(sc.senders) >= 2 && len(topics) >= 2)
 	} else {
